@@ -13,12 +13,15 @@ for d in sorted(glob.glob(os.path.join(ROOT, "seeded", "*", "meta.json"))):
         ex = r.get("replay_excerpt") or {}
         how = ex.get("kind", "")
         nf = "no-failing-input-found" in (r.get("violation_line") or "")
-        tag = "caught" if r.get("exit") == 1 and r.get("violation_line") else "MISSED"
+        if m.get("kind") == "behaviour-preserving":
+            tag = "quiet" if r.get("exit") == 0 and not r.get("violation_line") else "ALARM"
+        else:
+            tag = "caught" if r.get("exit") == 1 and r.get("violation_line") else "missed"
         if nf:
             tag += " (no concrete input)"
         where = ex.get("where", "")
         cells.append("%s: %s%s" % (pid, tag, (" — " + how + " @ " + where) if how else ""))
-    what = (m.get("what_breaks") or "").replace("|", "/").replace("\n", " ")
+    what = (m.get("what_breaks") or ("[behaviour-preserving] " + (m.get("what_changed") or ""))).replace("|", "/").replace("\n", " ")
     if len(what) > 230:
         what = what[:227] + "…"
     rows.append("| `%s` | %s | %s | %s |" % (sid, m.get("property"), what, "<br>".join(cells)))
